@@ -116,6 +116,11 @@ func vfGetCheck(r *RIB, ref *vfRef, name string, typ spb.AFTType) []*spb.GetResp
 			if x != nil {
 				b := t.NextHop.GetNextHop()
 				vfAssert(vfEqSV(b.GetNetworkInstance() != nil, b.GetNetworkInstance().GetValue(), x.hasTag, x.tag), "C07:next-hop-payload-equals-last-programmed")
+				if b.GetPopTopLabel() == nil {
+					vfAssert(!x.hasPop, "C07:next-hop-pop-top-label-equals-last-programmed")
+				} else {
+					vfAssert(vfAnd(x.hasPop, b.GetPopTopLabel().GetValue() == x.pop), "C07:next-hop-pop-top-label-equals-last-programmed")
+				}
 			}
 		default:
 			vfAssert(false, "C07:known-entry-kind")
